@@ -130,7 +130,7 @@ def weights(draw, count, force=None, spread=False):
     if count >= 3 and draw(st.integers(0, 3)) == 0:
         # as in most real models (arcs, revolved shapes): unit weights at the first and last control point, others inside
         ws[0] = ws[-1] = 1.0
-    if spread and count >= 2 and sc == 1.0 and draw(st.integers(0, 5)) == 0:
+    if spread and count >= 2 and sc == 1.0 and draw(st.integers(0, 2)) == 0:
         # weights of widely differing magnitude (exact powers of two apart): 6e-8 ... 1e6 in one shape.  Opt-in: such a shape is so
         # steep in its parameters that only checks which hand their own parameter values to the library can compare points
         ws = [w * 2.0 ** draw(st.sampled_from([-24, -24, 0, 0, 0, 20])) for w in ws]
